@@ -25,7 +25,7 @@ PROPS = {
         "explanation": "theorems end_to_end_{usart,can,serial} (model = specification for every event list, address pair, handler table and schedule) + differential runs of the real sender/receiver/protocol stack against the model; a differing line is a concrete C01 violation because the model's answer is the specified handler log",
     },
     "C02": {
-        "groups": {"frag_rt": Q(36000, 180000)},
+        "groups": {"frag_rt_enum": Q(900, 86019), "frag_rt": Q(36000, 180000)},
         "rule": "packets (payload by seeded PRNG; every length 0..=70, the 7k-1/7k/7k+1 boundaries around 8, 1792 and 28672, random lengths up to 28672; both flags, boundary addresses) x the three frame paths (direct, real CAN codec, real USART codec); distinct by input text; non-trivial = multi-frame packet (payload > 8 bytes)",
         "explanation": "theorem reassembly_exact gives the closed form of frames_left/build after every prefix; the driver compares the real PacketBuilder's observations after every frame with it (digest) and the final packet with the input",
     },
@@ -65,7 +65,7 @@ PROPS = {
         "explanation": "theorems toUsart_layout, toUsart_transparent, fromUsart_toUsart, decodeBody_encode + real to_usart_frame / from_usart_frame (through the real cobs crate); encode side and round trip: a differing line on a well-formed frame is a concrete C09 violation",
     },
     "C10": {
-        "groups": {"to_frames": Q(24000, 120000)},
+        "groups": {"to_frames_enum": Q(600, 28673), "to_frames": Q(24000, 120000)},
         "rule": "packets as in C02; frames compared one by one (digest beyond 4 frames) with the chunk-based specification; distinct by input text; non-trivial = multi-frame packet",
         "explanation": "theorem toFrames_eq_spec (model of to_frames = independent chunking fragmenter for every payload up to 28672 bytes) + real to_frames; a differing line is a concrete C10 violation",
     },
@@ -106,6 +106,8 @@ for k in ("C15", "C16", "C17", "C18"):
 
 
 ENUM_SCOPES = {
+    "frag_rt_enum": "every payload length 0..=299 (thorough: 0..=28672, the 4096-frame limit) through each of the three frame paths",
+    "to_frames_enum": "every payload length 0..=599 (thorough: 0..=28672)",
     "usart_dec_enum": "every byte string of length 0..=2 (65793; thorough: 0..=3, 16843009) as a USART body",
     "can_dec_enum": "every combination of 3 flag bits x 6 reserved identifier bits x id nibble x dlc 0..=8 (73728; thorough: x 8 address classes, 589824) as an extended CAN data frame",
     "builder_enum": "every sequence of at most 3 (thorough: 4) frames over a 24-frame alphabet (exact next frames, every single-attribute deviation, ids 0..4/255..258/4095, lengths 0/1/3/8) after a start frame announcing 3 resp. 258 frames (28850; thorough 692402)",
